@@ -157,6 +157,13 @@ Definition stored_link (root : board) (gida : list str) (scope link : ida) : opt
   let l := match compile_link scope link with Some r => roundtrip r | None => link end in
   if validate root gida l then Some l else None.
 
+(* a link inside an imported file: compiled in the file's own scope, then rebased by extendLinks on the
+   IDA [imp] of the importing field (and formatted again), then validated in the importing program *)
+Definition stored_link_imported (root : board) (gida : list str) (imp scope link : ida) : option ida :=
+  let l := match compile_link scope link with Some r => roundtrip r | None => link end in
+  let e := match extend_link imp l with Some e => roundtrip e | None => l end in
+  if validate root gida e then Some e else None.
+
 (* ---- specification side: canonical board paths ---- *)
 Fixpoint board_at (b : board) (pairs : list (str * str)) : option board :=
   match pairs with
